@@ -144,6 +144,8 @@ class Model:
             return e
         if k in ('INTERVAL', 'DELAYLOOP'):
             period, n, bodies = op[1], op[2], op[3]
+            if len(op) > 4 and op[4]:
+                s = s + op[4]       # the iterator is created first, the iteration (and with it the grid) starts `pre` later
             t = s
             for i in range(n):
                 tick = (s + (i + 1) * period) if k == 'INTERVAL' else (t + period)
